@@ -159,6 +159,43 @@ def register(add, parse, find_func, const_int, rat_of, ShapeError, module_assign
         "true" if (len(init_pos) == 1 and len(pre_assign) == 1 and pre_assign[0] < init_pos[0]
                    and ast.unparse(loop_fn.body[pre_assign[0]].value).startswith("index_array[0]")) else "false",
         "before initialize() the clock is set to the first bar of the index: what initialize() records is stamped with the first bar")
+    # --- which market classes raise KeyError from set_market_status on a bar their frame has no row for (C05) ---------------------------------
+    # `<frame>.loc[<timestamp>]` in set_market_status, unguarded (strict: KeyError when the market is closed) or only under an
+    # `if <timestamp> in <frame>.index` (tolerant: an empty status instead)
+    def strict_of(path, cls):
+        fn = find_func(parse(path), "set_market_status", cls=cls)
+        locs = []
+
+        def walk(node, guarded):
+            if isinstance(node, ast.If):
+                g = guarded or any(isinstance(c, ast.Compare) and any(isinstance(o, ast.In) for o in c.ops) and ast.unparse(c.comparators[0]).endswith(".index")
+                                   for c in ast.walk(node.test))
+                for x in node.body:
+                    walk(x, g)
+                for x in node.orelse:
+                    walk(x, guarded)
+                return
+            if isinstance(node, (ast.Try, ast.While, ast.For, ast.With)):
+                raise ShapeError(f"{cls}.set_market_status: unexpected {type(node).__name__} statement: the model of a closed market's status refresh must be revised")
+            if isinstance(node, ast.Subscript) and isinstance(node.value, ast.Attribute) and node.value.attr == "loc":
+                locs.append(guarded)
+            for ch in ast.iter_child_nodes(node):
+                walk(ch, guarded)
+        for st_ in fn.body:
+            walk(st_, False)
+        if not locs:
+            raise ShapeError(f"{cls}.set_market_status: no `<frame>.loc[...]` lookup found")
+        if all(locs):
+            return False
+        if not any(locs):
+            return True
+        raise ShapeError(f"{cls}.set_market_status: guarded and unguarded row lookups mixed")
+    for nm, path, cls in (("Uni", "demeter/uniswap/market.py", "UniLpMarket"), ("Aave", "demeter/aave/market.py", "AaveV3Market"),
+                          ("Squeeth", "demeter/squeeth/market.py", "SqueethMarket"), ("Gmx", "demeter/gmx/market.py", "GmxMarket"),
+                          ("GmxV2", "demeter/gmx/market2.py", "GmxV2Market"), ("Deribit", "demeter/deribit/market.py", "DeribitOptionMarket")):
+        add(f"coreStrictStatus{nm}", "Bool", "true" if strict_of(path, cls) else "false",
+            f"{cls}.set_market_status looks the bar's row up unguarded (`.loc[timestamp]`): on a bar its frame has no row for it raises KeyError "
+            f"(false: the lookup is guarded by `in ….index`, the market is just closed)")
     # the trigger loop: `for <t> in <expr>: if <t>.when(…): <t>.do(…)` — over the live list `….triggers` or over a copy?
     trig_loops = [n for n in ast.walk(bar_loop) if isinstance(n, ast.For) and n is not bar_loop
                   and any(isinstance(c, ast.Call) and getattr(c.func, "attr", "") == "when" for c in ast.walk(n))]
